@@ -157,8 +157,11 @@ def gen_cell(rseed: int, tier: str) -> Dict[str, Any]:
     valid = [d["id"] for d in docs if pr[f"{d['id']}:1"][0] == "db"]
     r = g.random()
     big = [i for i in valid if len(docs[i]["text"]) > 8192]
+    tiny = [d["id"] for d in docs if d["name"] in ("empty", "only-comment", "blank-lines")]
     if big and r < 0.04:
         doc = g.choice(big)
+    elif tiny and r < 0.08:
+        doc = g.choice(tiny)   # documents without any element (an empty database on every route)
     elif r < 0.35:
         doc = g.choice([i for i in nonascii if i in set(valid)] or valid)
     elif r < 0.75:
